@@ -267,9 +267,9 @@ pub fn workloads(tier: Tier) -> Vec<Workload> {
         }
     }
     // long parts: a record that is far larger than any internal block
-    for ty in [Ty::Polyline, Ty::Multipoint, Ty::PolygonM] {
+    for (ty, big) in [(Ty::Polyline, 1000usize), (Ty::Multipoint, 1500), (Ty::PolygonM, 2000)] {
         for i in 0..16 {
-            out.push(Workload { ty, ops: vec![WOp::W(0), WOp::F, WOp::W(1), WOp::W(0)], big: 1500, slice: (i, 16) });
+            out.push(Workload { ty, ops: vec![WOp::W(0), WOp::F, WOp::W(1), WOp::W(0)], big, slice: (i, 16) });
         }
     }
     out
@@ -457,7 +457,7 @@ pub fn check(tier: Tier) -> i32 {
             tier,
             level: "fault_enumeration",
             engine: "writer histories executed on the real ShapeWriter over logging devices; every crash image (operation prefix x torn write) of .shp and, independently, .shx fed to the real ShapeReader",
-            rule: "workloads = histories over {Wa, Wb, F} with <= 3 writes and <= 2 finalizes at any placement (finalize before the first write included), ending in drop, plus three workloads whose records have a part of 1500 points (for these: every operation boundary and cuts after 1, 4, 7 bytes of every write on the .shp, the .shx as persisted after each complete operation); crash points = for each device every k (operations applied) and every b (bytes of operation k+1 applied, 0 < b < len), images deduplicated by content (so cases are distinct by construction and are counted structurally, not hashed); evaluated: every .shp image without index, and every (.shp image, .shx image) pair with index; non-trivial = some operation applied or a torn write",
+            rule: "workloads = histories over {Wa, Wb, F} with <= 3 writes and <= 2 finalizes at any placement (finalize before the first write included), ending in drop, plus three workloads whose records have a part of 1000 / 1500 / 2000 points (for these: every operation boundary and cuts after 1, 4, 7 bytes of every write on the .shp, the .shx as persisted after each complete operation); crash points = for each device every k (operations applied) and every b (bytes of operation k+1 applied, 0 < b < len), images deduplicated by content (so cases are distinct by construction and are counted structurally, not hashed); evaluated: every .shp image without index, and every (.shp image, .shx image) pair with index; non-trivial = some operation applied or a torn write",
             bounds: json!({"workloads": ws.len(), "types": tier.pick(6, 13), "max_writes": 3, "max_finalizes": 2, "max_len": tier.pick(4, 5)}),
             exhaustive: true,
             assumptions: vec![
